@@ -50,6 +50,7 @@ KNOWN = {"P10": {"region": in_known_region,
 
 def strategy(tier):
     p = G.Profile(max_items=7 if tier == "quick" else 10, depth=3, dangling=False, groups=False, moddoc=False, body_max=4,
+                  impl_doc=True, dups=3,
                   weights={"class": 3, "test": 2, "func": 1, "generic": 1, "set": 1, "block": 1, "parseargs": 1})
     off = G.weighted((3, st.lists(st.sampled_from(KINDS), min_size=1, max_size=1)),
                      (3, st.lists(st.sampled_from(KINDS), min_size=1, max_size=4, unique=True)),
@@ -106,6 +107,10 @@ def evaluate(case):
     nodes0 = index_nodes(page0)
     all_items = list(G.walk(module["items"]))
     documented = [(it, par) for it, _, par in all_items if it.get("doc") and it["k"] not in ("dangling",)]
+    # an implementing definition with a doccomment of its own is a doc-carrying command as well
+    documented += [({"k": "func", "cmd": it["impl"]["cmd"], "name": G.impl_name(it), "doc": it["impl"]["doc"]}, par) for it, _, par in all_items
+                   if "impl" in it and it["impl"].get("doc")]
+    names = [it.get("name") for it, _, _ in all_items] + [G.impl_name(it) for it, _, _ in all_items if "impl" in it]
     kinds_doc = {flag_kind(it) for it, _ in documented}
     kinds_undoc = {flag_kind(it) for it, _, _ in all_items if it.get("doc") is None}
     both = (kinds_doc & kinds_undoc) - {None}
@@ -128,7 +133,7 @@ def evaluate(case):
         page1 = V.Page(run.text)
         nodes1 = index_nodes(page1)
         # which classes are shown under this vector (members are shown only if their class is)
-        hidden_members = set()
+        hidden_members = set()          # ids of the member/attribute items whose class is hidden
 
         def mark(items, class_shown):
             for it in items:
@@ -137,7 +142,7 @@ def evaluate(case):
                     mark(it["body"], shown)
                 elif it["k"] in ("attr", "member"):
                     if not class_shown:
-                        hidden_members.add(it["name"])
+                        hidden_members.add(id(it))
                     if "impl" in it:
                         mark(it["impl"]["body"], class_shown)
                 elif "body" in it:
@@ -148,11 +153,11 @@ def evaluate(case):
         # (a) doc-carrying commands keep their entry, unchanged
         for it, par in documented:
             marker = it["doc"]["marker"]
-            if it["k"] in ("attr", "member") and it["name"] in hidden_members:
+            if it["k"] in ("attr", "member") and id(it) in hidden_members:
                 continue
             if not marker:
                 # empty doccomment: no marker to follow, match the entry by its (unique) name
-                if it["k"] in ("set", "generic", "block", "class"):
+                if it["k"] in ("set", "generic", "block", "class") or names.count(it["name"]) != 1:
                     continue
                 n0s = [n for n, _ in nodes0 if named_after(n, it["name"]) and (it["k"] not in ("test", "section", "addtest") or
                                                                                any(a[0] == "warning" for a in n.admonitions()))]
@@ -199,6 +204,17 @@ def evaluate(case):
                         if nm not in inner_names:
                             res.fail("class-inner-changed", f"off={off}: {n.arg!r} lists {nm!r} which is not defined inside it")
         # (b) nothing named after an undocumented K-command when K is off
+        def may_show(o):
+            """commands that may legitimately have an entry under this vector"""
+            if o["k"] in ("attr", "member") and id(o) in hidden_members:
+                return False
+            ko = flag_kind(o)
+            return o.get("doc") is not None or ko is None or flags[ko]
+
+        def unmarked(hits, name):
+            """entries that do not carry the doc marker of a documented command of the same name (deliberate duplicates)"""
+            marks = [o["doc"]["marker"] for o, _, _ in all_items if o.get("name") == name and o.get("doc") and o["doc"].get("marker")]
+            return [n for n in hits if not any(m in l for m in marks for l in n.raw)]
         for it, _, par in all_items:
             k = flag_kind(it)
             if k and it.get("doc") is None and not flags[k]:
@@ -207,13 +223,24 @@ def evaluate(case):
                     # the implementing definition of a hidden test may legitimately show up as an ordinary
                     # function of the same name; the test's own entry is the one carrying the do-not-call warning
                     hits = [n for n in hits if any(a[0] == "warning" for a in n.admonitions())]
-                if hits:
+                hits = unmarked(hits, it["name"])
+                # other commands of the same name that are shown without a marker account for their own entries
+                allowed = sum(1 for o, _, _ in all_items if o is not it and o.get("name") == it["name"]
+                              and o["k"] not in ("dangling", "parseargs") and may_show(o)
+                              and not (o.get("doc") and o["doc"].get("marker")))
+                if len(hits) > allowed:
                     res.fail(f"undocumented-shown:{k}", f"off={off}: undocumented {k} {it['name']!r} has an entry {hits[0].name} {hits[0].arg!r}")
         # (c) members of hidden classes appear nowhere
         for it, _, par in all_items:
-            if it["k"] in ("attr", "member") and it["name"] in hidden_members:
+            if it["k"] in ("attr", "member") and id(it) in hidden_members:
                 hits = [n for n, p in nodes1 if n.name in ("py:method", "py:attribute") and named_after(n, it["name"])]
-                if hits:
+                if it.get("doc") and it["doc"].get("marker"):
+                    hits = [n for n in hits if any(it["doc"]["marker"] in l for l in n.raw)]
+                else:
+                    hits = unmarked(hits, it["name"])
+                allowed = sum(1 for o, _, _ in all_items if o is not it and o["k"] in ("attr", "member") and o["name"] == it["name"]
+                              and id(o) not in hidden_members and not (o.get("doc") and o["doc"].get("marker")))
+                if len(hits) > (0 if it.get("doc") and it["doc"].get("marker") else allowed):
                     res.fail("member-of-hidden-class-shown", f"off={off}: {it['name']!r} shown although its class is hidden")
     res.nontrivial = nt
     for k in sorted(both):
